@@ -54,11 +54,13 @@ ExportSeqs ==
                   (import <root>.sub._modb): none of these re-exports a declaration, both stay private.
    "pkgnamed"   - the package sub/deep is itself called like declaration 1 (reported as "deep"), which it re-exports from its private module
                   _moda; declaration 2 is written into the package file of that package.
+   "redefclass" - class 1 is defined twice in its module (the later definition is the class); both definitions declare the class attribute
+                  `retries` and assign `self.verbose` in the constructor, the later one also declares `level`: each exactly once
    "genericattr" - class 1 is generic; its class attribute `content` and its constructor-assigned attribute `item` are typed by the type variable
                   (and `plain` by int): attributes are declarations like any other.
    "privreexp"  - like "distinct", but the sibling package (at = 3) is a private one (<root>/_other; reported as "other"): a public declaration
                   that only a private package re-exports is still emitted once, in its module's stub or in that package's. *)
-Variants == {"privtwinlate", "samemoduleboth", "bareimport", "privpkgtop", "privpkginit", "pkgnamed", "samenameboth", "genericattr", "privreexp", "distinct", "samename", "suffix", "samemodule", "initdecl", "sharedbase", "suffixalias", "stdlibname", "exccls", "pkgmodreexp", "privtwin", "privtwindeep", "newtype"}
+Variants == {"privtwinlate", "samemoduleboth", "bareimport", "privpkgtop", "privpkginit", "pkgnamed", "samenameboth", "genericattr", "redefclass", "privreexp", "distinct", "samename", "suffix", "samemodule", "initdecl", "sharedbase", "suffixalias", "stdlibname", "exccls", "pkgmodreexp", "privtwin", "privtwindeep", "newtype"}
 Universe == { [kind |-> k, exports |-> e, variant |-> "distinct"] : k \in Kinds, e \in ExportSeqs }
              \cup { [kind |-> k, exports |-> << Exp(a, 1, x) >>, variant |-> v] : k \in Kinds, a \in {0, 1, 2}, x \in {"", "AliasA"}, v \in {"samename", "suffix"} }
              \cup { [kind |-> k, exports |-> << Exp(a, 1, "") >>, variant |-> "samemodule"] : k \in Kinds, a \in {0, 1, 3} }
@@ -70,6 +72,7 @@ Universe == { [kind |-> k, exports |-> e, variant |-> "distinct"] : k \in Kinds,
              \cup { [kind |-> k, exports |-> << Exp(2, 1, "") >>, variant |-> "pkgnamed"] : k \in Kinds }
              \cup { [kind |-> k, exports |-> e, variant |-> "samenameboth"] : k \in Kinds, e \in { << Exp(a, 1, ""), Exp(a, 2, "AliasA") >> : a \in {0, 1} } \cup { << Exp(0, 2, "AliasA"), Exp(0, 1, "") >> } }
              \cup { [kind |-> "class", exports |-> e, variant |-> "genericattr"] : e \in { << >>, << Exp(0, 1, "") >> } }
+             \cup { [kind |-> "class", exports |-> e, variant |-> "redefclass"] : e \in { << >>, << Exp(0, 1, "") >> } }
              \cup { [kind |-> k, exports |-> e, variant |-> "privreexp"] : k \in Kinds, e \in { << Exp(3, t, x) >> : t \in {1, 2}, x \in {"", "AliasA"} } \cup { << Exp(3, 1, ""), Exp(1, 1, "") >> } }
              \cup { [kind |-> k, exports |-> e, variant |-> "newtype"] : k \in Kinds, e \in { << >>, << Exp(0, 2, "") >> } }
              \cup { [kind |-> k, exports |-> e, variant |-> v] : k \in Kinds, e \in { << >>, << Exp(0, 1, "") >> }, v \in {"privtwin", "privtwindeep", "privtwinlate"} }
@@ -92,7 +95,7 @@ ExposedNames(s, at, t) ==
 PublicDecl(s, t) ==
   IF s.variant = "bareimport" THEN FALSE ELSE
   IF s.variant \in {"privtwin", "privtwindeep", "privtwinlate"} THEN t = 1 ELSE
-  IF s.variant \in {"distinct", "samemodule", "initdecl", "sharedbase", "suffixalias", "stdlibname", "exccls", "pkgmodreexp", "newtype", "privreexp", "genericattr", "samenameboth", "pkgnamed", "privpkginit", "privpkgtop", "samemoduleboth"} THEN TRUE
+  IF s.variant \in {"distinct", "samemodule", "initdecl", "sharedbase", "suffixalias", "stdlibname", "exccls", "pkgmodreexp", "newtype", "privreexp", "genericattr", "redefclass", "samenameboth", "pkgnamed", "privpkginit", "privpkgtop", "samemoduleboth"} THEN TRUE
   ELSE t = 1 /\ \E a \in Ats : Exposes(s, a, 1)       \* private modules: public only through the re-export, and only the re-exported declaration
 ModHomeV(s, t) == IF s.variant = "privtwin" THEN (IF t = 1 THEN <<"sub", "deep", "modsame">> ELSE <<"_hid", "modsame">>)
                   ELSE IF s.variant = "privtwindeep" THEN (IF t = 1 THEN <<"sub", "deep", "modsame">> ELSE <<"sub", "deep", "_hid", "modsame">>) ELSE IF s.variant = "privtwinlate" THEN (IF t = 1 THEN <<"sub", "deep", "modsame">> ELSE <<"sub", "zz", "_hid", "modsame">>) ELSE IF s.variant = "pkgmodreexp" THEN (IF t = 1 THEN <<"sub", "deep">> ELSE <<"sub">>) ELSE IF s.variant = "stdlibname" /\ t = 2 THEN <<"sub", "logging">> ELSE IF s.variant = "sharedbase" THEN <<"sub", "deep", "moda">> ELSE IF s.variant = "initdecl" /\ t = 1 THEN <<"sub", "deep">> ELSE IF s.variant = "pkgnamed" /\ t = 2 THEN <<"sub", "deep">> ELSE IF s.variant = "privpkginit" /\ t = 1 THEN <<"sub", "_2d">> ELSE IF s.variant = "privpkgtop" /\ t = 1 THEN <<"_2d">> ELSE IF s.variant \in {"samemodule", "samemoduleboth"} THEN (IF t = 1 THEN <<"sub", "deep", "modsame">> ELSE <<"sub", "modsame">>) ELSE ModHome(t)
@@ -125,7 +128,7 @@ Emit == pc = "done" => PrintT(ToJson([kind |-> sc.kind, exports |-> sc.exports, 
 (* obs = [decls: Seq of [tgt, occs: Seq [home, name]]] *)
 (* members a class declaration must show, each exactly once (the private helper never) *)
 OwnMember(t) == IF t = 1 THEN "m_d1" ELSE "m_d2"
-ExpectedMembers(s, t) == IF s.kind # "class" THEN {} ELSE { OwnMember(t) } \cup (IF s.variant = "genericattr" /\ t = 1 THEN { "content", "item", "plain" } ELSE {}) \cup (IF s.variant = "sharedbase" THEN { "m_shared", "Options", IF t = 1 THEN "Options.opt_m" ELSE "Options.own_opt" } ELSE {})
+ExpectedMembers(s, t) == IF s.kind # "class" THEN {} ELSE { OwnMember(t) } \cup (IF s.variant = "genericattr" /\ t = 1 THEN { "content", "item", "plain" } ELSE {}) \cup (IF s.variant = "redefclass" /\ t = 1 THEN { "retries", "verbose", "level" } ELSE {}) \cup (IF s.variant = "sharedbase" THEN { "m_shared", "Options", IF t = 1 THEN "Options.opt_m" ELSE "Options.own_opt" } ELSE {})
    \* Options: public nested class of the private base (with a method opt_m); class 2 defines a nested class Options of its own (with own_opt);
    \* members of nested classes are reported as Nested.member
 MCount(ms, m) == Cardinality({ j \in 1..Len(ms) : ms[j] = m })
@@ -152,7 +155,7 @@ Judge(s, obs) ==
              ELSE
              (IF n = 0 THEN { [property |-> "C03", clause |-> "ExactlyOnce", sig |-> "u2:dropped:" \o Shape(s), expected |-> "1", observed |-> "0"] } ELSE {})
              \cup (IF n > 1 THEN { [property |-> "C03", clause |-> "ExactlyOnce", sig |-> "u2:duplicated:" \o Shape(s), expected |-> "1", observed |-> ToString(n)] } ELSE {})
-             \cup (IF s.variant \in {"distinct", "samemodule", "initdecl", "sharedbase", "suffixalias", "stdlibname", "exccls", "pkgmodreexp", "newtype", "privreexp", "genericattr", "samenameboth", "pkgnamed", "privpkginit", "privpkgtop", "samemoduleboth"} /\ n = 1 /\ d.occs[1].home \notin AllowedHomes(s, d.tgt) THEN { [property |-> "C03", clause |-> "Home", sig |-> "u2:" \o Shape(s), expected |-> ToString(AllowedHomes(s, d.tgt)), observed |-> ToString(d.occs[1].home)] } ELSE {})
-             \cup (IF s.variant \in {"distinct", "samemodule", "initdecl", "sharedbase", "suffixalias", "stdlibname", "exccls", "pkgmodreexp", "newtype", "privreexp", "genericattr", "samenameboth", "pkgnamed", "privpkginit", "privpkgtop", "samemoduleboth"} /\ n = 1 /\ d.occs[1].name \notin AllowedNames(s, d.tgt) THEN { [property |-> "C03", clause |-> "Name", sig |-> "u2:" \o Shape(s), expected |-> ToString(AllowedNames(s, d.tgt)), observed |-> d.occs[1].name] } ELSE {})
+             \cup (IF s.variant \in {"distinct", "samemodule", "initdecl", "sharedbase", "suffixalias", "stdlibname", "exccls", "pkgmodreexp", "newtype", "privreexp", "genericattr", "redefclass", "samenameboth", "pkgnamed", "privpkginit", "privpkgtop", "samemoduleboth"} /\ n = 1 /\ d.occs[1].home \notin AllowedHomes(s, d.tgt) THEN { [property |-> "C03", clause |-> "Home", sig |-> "u2:" \o Shape(s), expected |-> ToString(AllowedHomes(s, d.tgt)), observed |-> ToString(d.occs[1].home)] } ELSE {})
+             \cup (IF s.variant \in {"distinct", "samemodule", "initdecl", "sharedbase", "suffixalias", "stdlibname", "exccls", "pkgmodreexp", "newtype", "privreexp", "genericattr", "redefclass", "samenameboth", "pkgnamed", "privpkginit", "privpkgtop", "samemoduleboth"} /\ n = 1 /\ d.occs[1].name \notin AllowedNames(s, d.tgt) THEN { [property |-> "C03", clause |-> "Name", sig |-> "u2:" \o Shape(s), expected |-> ToString(AllowedNames(s, d.tgt)), observed |-> d.occs[1].name] } ELSE {})
         : j \in 1..Len(obs.decls) }
 =============================================================================
